@@ -249,6 +249,9 @@ pub fn replay(args: &[String]) -> i32 {
         })
         .unwrap_or((0, 1));
     let g = load(inp);
+    if let Some(wd) = arg_value(args, "--watch") {
+        watchdog_start(wd, 20, arg_flag(args, "--sync"));
+    }
     let mut out = open_out(outp);
     writeln!(out, "{}", json!({"event": "pool", "pool": g.pool})).unwrap();
     let mut j = Judge { out, residual: 0, steps: 0, seen: HashMap::new(), all: false, hist: vec![] };
@@ -339,7 +342,8 @@ pub fn replay(args: &[String]) -> i32 {
                 if e.as_i64() == Some(-1) {
                     continue;
                 }
-                let outc = w.exec(&g.calls[ci]);
+                heartbeat(|| json!({"event": "crash", "call": g.calls[ci], "calls": j.hist}).to_string());
+            let outc = w.exec(&g.calls[ci]);
                 let post = w.project();
                 j.step(&g, &w, s, ci, &pre, &outc, &post);
                 edges_done += 1;
@@ -382,6 +386,7 @@ pub fn replay(args: &[String]) -> i32 {
             if g.edges[cur][ci].as_i64() == Some(-1) {
                 continue;
             }
+            heartbeat(|| json!({"event": "crash", "call": g.calls[ci], "calls": j.hist}).to_string());
             let outc = w.exec(&g.calls[ci]);
             let post = w.project();
             let nx = j.step(&g, &w, cur, ci, &pre, &outc, &post);
